@@ -8,6 +8,8 @@ from .. import spaces, walk
 from ..explore import Check, SubSpace, coverage_from, explore, replay_case
 
 RULE = (
+    "[plus: every (engine kind pair, shared explicit / default name, small tree, transfer / chain / join / preferred-engine "
+    "call) combination over two DISTINCT engine objects carrying the SAME name - engines are identified by object, not by name] "
     "every tree produced by any program over (i) the iteration alphabet, (ii) the SQL alphabet, (iii) a three-engine "
     "alphabet (SQL engine s, iteration engines e1/e2) with transfers, materializations, joins to partners in either "
     "engine, engine-restricted column functions and every preferred_engine x backtrack x transfer x "
@@ -80,8 +82,90 @@ class C14(Check):
         return True
 
 
+def same_name_engines(case=None):
+    """Engines are distinct objects even when they carry the same name (two default-named engines are the
+    common case).  Exhaustive over: engine kind pairs x {explicit shared name, default name} x 4 small trees x
+    {transfer, chain, join, preferred-engine selection}: a transfer to the *other* object must yield a relation
+    living in that object through a Transfer node, and binary operations across the two must raise EngineError."""
+    from lsst.daf.relation import EngineError, Transfer, iteration, sql
+
+    from .. import alphabet as A
+
+    viols, n = [], 0
+    cols = A.tags(("a", "b"))
+    a_gt = A.to_lib(("gt", ("ref", "a"), ("lit", 1)))
+
+    def mk(kind, name):
+        kw = {} if name is None else {"name": name}
+        return iteration.Engine(**kw) if kind == "it" else sql.Engine(**kw)
+
+    def leaf(eng, nm):
+        if isinstance(eng, iteration.Engine):
+            rows = [{A.tag("a"): 1, A.tag("b"): 2}, {A.tag("a"): 2, A.tag("b"): 1}]
+            return eng.make_leaf(cols, payload=iteration.RowSequence(rows), name=nm)
+        return eng.make_leaf(cols, payload=sql.Payload(from_clause=None, columns_available={}), name=nm, min_rows=2, max_rows=2)
+
+    shapes = ("leaf", "sel", "proj", "slice")
+    actions = ("xfer", "chain", "rchain", "join", "pe_sel")
+    for k1 in ("it", "sql"):
+        for k2 in ("it", "sql"):
+            for name in ("dup", None):
+                for shape in shapes:
+                    for action in actions:
+                        c = [k1, k2, name, shape, action]
+                        if case is not None and c != case:
+                            continue
+                        e1, e2 = mk(k1, name), mk(k2, name)
+                        r = leaf(e1, "t1")
+                        if shape == "sel":
+                            r = r.with_rows_satisfying(a_gt)
+                        elif shape == "proj":
+                            r = r.with_only_columns(A.tags(("a",)))
+                        elif shape == "slice":
+                            r = r[0:1]
+                        other = leaf(e2, "t2")
+                        if shape == "proj":
+                            other = other.with_only_columns(A.tags(("a",)))
+                        n += 1
+                        why = None
+                        try:
+                            if action == "xfer":
+                                out = r.transferred_to(e2)
+                                if out.engine is not e2:
+                                    why = f"transferred_to(other engine object, same name {e2.name!r}) returned a relation living in a different engine object"
+                                elif not any(isinstance(x, Transfer) and x.engine is e2 for x in walk.walk(out)):
+                                    why = f"transfer to a distinct engine object with the same name {e2.name!r} was elided: {out}"
+                            elif action == "pe_sel":
+                                out = r.transferred_to(e2).with_rows_satisfying(a_gt, preferred_engine=e1)
+                                bad = [x for x in walk.walk(out) if hasattr(x, "operation") and x.engine is not x.target.engine]
+                                if bad:
+                                    why = f"operation node lives in another engine object than its operand: {out}"
+                            else:
+                                try:
+                                    out = r.chain(other) if action == "chain" else other.chain(r) if action == "rchain" else r.join(other, backtrack=False)
+                                    why = f"{action} across two distinct engine objects named {e2.name!r} returned {out} instead of raising EngineError"
+                                except EngineError:
+                                    pass
+                        except Exception as e:  # noqa: BLE001
+                            why = f"{type(e).__name__}: {e}"
+                        if why:
+                            viols.append(
+                                {
+                                    "kind": "same-name-engines-confused",
+                                    "detail": why,
+                                    "case": {"same_name_engines": c},
+                                    "program_str": f"engines {k1}/{k2} name={name!r} {shape} ; {action}",
+                                    "finding": None,
+                                }
+                            )
+    return viols, n
+
+
 def run(tier, seed):
     res = explore(C14(), tier, seed)
+    sn_viols, sn_n = same_name_engines()
+    res["violations"] = list(res["violations"]) + sn_viols
+    res["counters"]["same_name_engine_cases"] = sn_n
     return {
         "coverage": coverage_from(res, RULE),
         "violations": res["violations"],
@@ -93,4 +177,6 @@ def run(tier, seed):
 
 
 def replay(doc):
+    if "same_name_engines" in doc["case"]:
+        return same_name_engines(doc["case"]["same_name_engines"])[0]
     return replay_case(C14(), doc["case"])
